@@ -42,6 +42,7 @@ type zzvEPMeta struct {
 	Nets     map[string]string    `json:"nets"`
 	Covers   map[string][]string  `json:"covers"`
 	Ips      map[string]string    `json:"ips"`
+	Unbound  []string             `json:"unbound"` // address keys no listener can be bound to
 	Dests    map[string]zzvEPDest `json:"dests"`
 	Patterns map[string]struct {
 		Text string `json:"text"`
@@ -190,10 +191,14 @@ func (e *zzvEPEnv) serveDNS() {
 		switch {
 		case !known:
 			resp[3] = 0x83 // NXDOMAIN
-		case qtype == 1:
+		case qtype == 1 && net.ParseIP(ip).To4() != nil:
 			resp[7] = 1
 			resp = append(resp, 0xc0, 0x0c, 0, 1, 0, 1, 0, 0, 0, 60, 0, 4)
 			resp = append(resp, net.ParseIP(ip).To4()...)
+		case qtype == 28 && net.ParseIP(ip).To4() == nil: // a name that has an AAAA record only
+			resp[7] = 1
+			resp = append(resp, 0xc0, 0x0c, 0, 28, 0, 1, 0, 0, 0, 60, 0, 16)
+			resp = append(resp, net.ParseIP(ip).To16()...)
 		}
 		e.dns.WriteToUDP(resp, from)
 	}
@@ -203,6 +208,15 @@ func (e *zzvEPEnv) serveDNS() {
 func (e *zzvEPEnv) newSinks() map[string]*zzvSink {
 	sinks := map[string]*zzvSink{}
 	for key, addr := range e.meta.Ips {
+		skip := false
+		for _, u := range e.meta.Unbound {
+			if u == key {
+				skip = true
+			}
+		}
+		if skip {
+			continue
+		}
 		l, err := net.Listen("tcp", net.JoinHostPort(addr, "0"))
 		if err != nil {
 			e.t.Fatalf("exitpolicy: cannot listen on %s: %v", addr, err)
@@ -335,9 +349,14 @@ func (r *zzvEPRun) project() (st zzvEPState, locals []string, unknown []string) 
 }
 
 func zzvEPSameState(a, b zzvEPState) (dynOK, allowOK, handlerOK bool) {
-	dynOK = len(a.Dyn) == len(b.Dyn)
+	dynOK = true // a network that is missing on one side counts as absent (metric 0)
 	for k, v := range a.Dyn {
 		if b.Dyn[k] != v {
+			dynOK = false
+		}
+	}
+	for k, v := range b.Dyn {
+		if a.Dyn[k] != v {
 			dynOK = false
 		}
 	}
@@ -631,7 +650,7 @@ func (e *zzvEPEnv) replayPath(pi int, path zzvEPPath, corrupt string, outcome fu
 				break
 			}
 			if a.Act == "List" {
-				for n, mtr := range sp.T.Dyn {
+				for n, mtr := range now.Dyn {
 					if listed[n] != mtr {
 						mism++
 						rec["class"] = "result"
